@@ -42,6 +42,15 @@ TypeOK == /\ s.nr <= s.nc /\ s.nc <= s.nr + 2
           /\ s.nc > 0 => s.curPt.n = s.nc - 1
           /\ Len(s.sec) <= N + 1
 
+\* Refinement: with the ghost monitor "all", every step of this implementation-shaped model is a
+\* step of the unbounded abstraction HolderAbs.tla (whose invariants C01, C02 are PROVED with
+\* TLAPS for all commitment numbers) or leaves HolderAbs' variables unchanged.
+HA == INSTANCE HolderAbs WITH nh <- s.nh, nxt <- (s.nextH # NoC), closed <- s.closed,
+                               acc <- g.acceptedValid, disc <- g.disclosed,
+                               sgn <- g.signedH, das <- g.discAtSign
+RefinesHolderAbs == [][HA!NextB(0..N + 3)]_(HA!vars)
+HolderAbsInit == HA!Init
+
 \* C10 at design level: a refused request leaves the abstract state unchanged
 Frame == [][ (last'.ok = FALSE) => (s' = s) ]_<<s, g, last>>
 =============================================================================
